@@ -116,7 +116,7 @@ package builder
 
 //@ stub (pkg/builder.BuildDirectoryCreator).GetBuildDirectory
 //@   pure -- the base creator's own acquisitions and directories are accounted to the directory it returns, not to this call
-//@   ensures r2 == nil ==> r0 != nil
+//@   ensures (r2 == nil) == (r0 != nil)
 //@ stub (pkg/builder.BuildDirectory).Mkdir
 //@   pure
 //@ stub (pkg/builder.BuildDirectory).Remove
